@@ -24,10 +24,11 @@ import span_shapes  # noqa: E402
 
 (NEW, CLONE, CURRENT, ORCURRENT, DROP, ENTER, DROPGUARD, ENTERED, EXITOWNED, SCOPEBEGIN, SCOPEEND, RECORD, FOLLOWS,
  INSTRUMENT, POLLBEGIN, POLLEND, INTOINNER, SETDEFAULT, CLOSESCOPE, QUERY, INNERACCESS, SWAP, CLONEFUT, WITHCOLL,
- CLONEDROP, CLONEFROM) = range(26)
+ CLONEDROP, CLONEFROM, PDROP, SCOPEENDL, POLLENDL, INSTRCUR) = range(30)
 OPNAMES = ["New", "Clone", "Current", "OrCurrent", "Drop", "Enter", "DropGuard", "Entered", "ExitOwned", "ScopeBegin",
            "ScopeEnd", "Record", "FollowsFrom", "Instrument", "PollBegin", "PollEnd", "IntoInner", "SetDefault", "CloseScope",
-           "Query", "InnerAccess", "SpanMutSwap", "CloneFut", "WithCollector", "CloneDrop", "CloneFrom"]
+           "Query", "InnerAccess", "SpanMutSwap", "CloneFut", "WithCollector", "CloneDrop", "CloneFrom", "PDrop", "ScopeEndL", "PollEndL",
+           "InstrumentCurrent"]
 TAGS = {1: "new_span", 2: "clone_span", 3: "try_close", 4: "enter", 5: "exit", 6: "record", 7: "record_follows_from",
         8: "mark:poll-body", 9: "mark:inner-drop", 10: "mark:inner-touched"}
 FUTS = ('f', 'w', 'i')   # Instrumented / WithDispatch<Instrumented> / Instrumented<WithDispatch>
@@ -87,7 +88,20 @@ class Own:
             return not self.live(a)
         if code in (ORCURRENT, ENTERED, INSTRUMENT):
             return k.get(a) == 'h' and self.free(a)
-        if code == DROP:
+        if code in (SCOPEENDL, POLLENDL):
+            if b > 3:
+                return False
+            tmp = Own()
+            tmp.kinds, tmp.ents = dict(self.kinds), [list(x) for x in self.ents]
+            for n in [c, d, e][:b]:
+                if not tmp.ok([t, DROP, n, 0, 0, 0, 0]):
+                    return False
+                tmp.apply([t, DROP, n, 0, 0, 0, 0])
+            f = tmp.top_frame(t)
+            return f is not None and f[0] == ('s' if code == SCOPEENDL else 'p')
+        if code == INSTRCUR:
+            return not self.live(a)
+        if code in (DROP, PDROP):
             if not self.live(a):
                 return False
             return self.free(a) or (k[a] == 'h' and self.owned_by(a, t))
@@ -132,7 +146,13 @@ class Own:
             self.kinds[a] = 'h'
         elif code == CLONE:
             self.kinds[b] = 'h'
-        elif code == DROP:
+        elif code in (SCOPEENDL, POLLENDL):
+            for n in [c, d, e][:b]:
+                self.apply([t, DROP, n, 0, 0, 0, 0])
+            self.apply([t, SCOPEEND, 0, 0, 0, 0, 0])
+        elif code == INSTRCUR:
+            self.kinds[a] = 'f'
+        elif code in (DROP, PDROP):
             self.ents = [x for x in self.ents if x[1] != a]
             del self.kinds[a]
         elif code == ENTER:
@@ -167,7 +187,8 @@ class Own:
 WEIGHTS = [(NEW, 12), (CLONE, 9), (CURRENT, 5), (ORCURRENT, 3), (DROP, 8), (ENTER, 9), (DROPGUARD, 8), (ENTERED, 6),
            (EXITOWNED, 6), (SCOPEBEGIN, 5), (SCOPEEND, 5), (RECORD, 3), (FOLLOWS, 3), (INSTRUMENT, 7), (POLLBEGIN, 15),
            (POLLEND, 11), (INTOINNER, 3), (SETDEFAULT, 3), (CLOSESCOPE, 2), (QUERY, 3), (INNERACCESS, 3), (SWAP, 4),
-           (CLONEFUT, 4), (WITHCOLL, 4), (CLONEDROP, 4), (CLONEFROM, 5)]
+           (CLONEFUT, 4), (WITHCOLL, 4), (CLONEDROP, 4), (CLONEFROM, 5), (PDROP, 5), (SCOPEENDL, 4), (POLLENDL, 5),
+           (INSTRCUR, 3)]
 
 
 def gen_program(rng, n_main, threads, colls, malformed):
@@ -214,6 +235,17 @@ def gen_program(rng, n_main, threads, colls, malformed):
             elif code == WITHCOLL:
                 x[3] = rng.choice([0, 1 + r(colls + 1)])
             return x
+        if code == PDROP:
+            return [t, PDROP, (rng.choice(hs) if hs else r(NH)), 0, 0, 0, 0]
+        if code == INSTRCUR:
+            return [t, INSTRCUR, r(NH), r(2), 0, 0, 0]
+        if code in (SCOPEENDL, POLLENDL):
+            # the locals: holders this thread could drop now (plain handles, its own EnteredSpans, futures at rest)
+            cand_ = [h for h in hs if own.ok([t, DROP, h, 0, 0, 0, 0])]
+            rng.shuffle(cand_)
+            ls = cand_[:rng.choice([1, 1, 2, 3])]
+            res_ = (1 if rng.random() < 0.6 else 0) if code == SCOPEENDL else rng.choice([0, 1, 2, 2, 2])
+            return [t, code, res_, len(ls)] + (ls + [0, 0, 0])[:3]
         if code == CLONEDROP:
             gs = [e[1] for e in own.ents if e[0] == 'o']
             src = rng.choice(gs) if gs and rng.random() < 0.6 else (rng.choice(hs) if hs else r(NH))
@@ -319,6 +351,12 @@ def coq_op(op):
         body = "Record %d [%s]" % (a, "; ".join("true" if (mask >> i) & 1 else "false" for i in range(ln)))
     elif code == WITHCOLL:
         body = "WithCollector %d %s" % (a, "None" if b == 0 else "(Some %d)" % (b - 1))
+    elif code == SCOPEENDL:
+        body = "ScopeEndL %s [%s]" % ("true" if a else "false", "; ".join(str(x) for x in [c, d, e][:b]))
+    elif code == POLLENDL:
+        body = "PollEndL %s [%s]" % (["Pending", "Ready", "Panicked"][a], "; ".join(str(x) for x in [c, d, e][:b]))
+    elif code == INSTRCUR:
+        body = "InstrumentCurrent %d %s" % (a, "true" if b else "false")
     elif code == SCOPEEND:
         body = "ScopeEnd %s" % ("true" if a else "false")
     elif code == POLLEND:
@@ -401,17 +439,27 @@ def oracle(case, out):
         if code in (SCOPEEND, POLLEND):
             f = own.top_frame(t)
             refs = [f[1]] if f else []
+        locals_ = list(op[4:4 + b]) if code in (SCOPEENDL, POLLENDL) else []
+        if code in (SCOPEENDL, POLLENDL):
+            f = own.top_frame(t)
+            refs = ([f[1]] if f else []) + locals_
+            if locals_ and (a == 1 if code == SCOPEENDL else a == 2) and any(ids.get(n, 0) > 0 for n in locals_):
+                flags.add("locals-dropped-by-unwind")
+        if code == PDROP:
+            refs = [a]
+            if ids.get(a, 0) > 0:
+                flags.add("dropped-while-panicking")
         calls = [e for e in rec["e"] if e[2] <= 7]
         if refs is not None and code != NEW and all(ids.get(r, 0) == 0 for r in refs) and calls:
             bad("a disabled span caused collector calls", i, calls=calls)
         sid = None
-        if code in (POLLBEGIN, DROP, INTOINNER) and own.anyfut(a):
+        if code in (POLLBEGIN, DROP, PDROP, INTOINNER) and own.anyfut(a):
             sid = ids.get(a, 0) - 1
             en = sid >= 0 and sid != NOCOLL
             shape = [(e[2], e[3], e[1]) for e in rec["e"]]
             if code == POLLBEGIN:
                 want = ([(4, sid, t)] if en else []) + [(8, a, t)]
-            elif code == DROP:
+            elif code in (DROP, PDROP):
                 want = ([(4, sid, t)] if en else []) + [(9, a, t)] + ([(5, sid, t), (3, sid, t)] if en else [])
             else:
                 want = ([(3, sid, t)] if en else []) + [(9, a, t)]
@@ -471,6 +519,11 @@ def oracle(case, out):
         res, dr, pre = rec["res"], rec["dr"], rec["pre"]
         def span_of(h):           # the span a reported handle id (id + 1) denotes; None = disabled / no collector / unknown
             return root.get(h - 1) if h and h - 1 != NOCOLL else None
+        for n_ in locals_:
+            # the frame's locals were dropped when it ended
+            sp_ = span_of(ids.get(n_, 0))
+            if sp_ is not None:
+                dropped[sp_] = dropped.get(sp_, 0) + 1
         if code == CLONEDROP:
             # a handle of r's span came into existence and was dropped again
             sp_ = span_of(ids.get(a, 0))
@@ -490,7 +543,7 @@ def oracle(case, out):
             if returned is not None and res - 1 != returned:
                 bad("the new handle does not carry the id its collector returned for it", i, handle_id=res - 1,
                     collector_returned=returned)
-        if code in (NEW, CLONE, CURRENT, CLONEFUT) or (code == ORCURRENT and pre == 0):
+        if code in (NEW, CLONE, CURRENT, CLONEFUT, INSTRCUR) or (code == ORCURRENT and pre == 0):
             if res and res - 1 != NOCOLL:
                 if res - 1 not in root:
                     bad("a handle carries an id no collector had issued", i, handle_id=res - 1)
@@ -502,18 +555,20 @@ def oracle(case, out):
                         collector_returned=returned)
         if dr and dr - 1 != NOCOLL and dr - 1 in root:
             dropped[root[dr - 1]] = dropped.get(root[dr - 1], 0) + 1
-        if code in (NEW, CURRENT, ORCURRENT, EXITOWNED, CLONEFROM):
+        if code in (NEW, CURRENT, ORCURRENT, EXITOWNED, CLONEFROM, INSTRCUR):
             ids[a] = res
         elif code in (CLONE, CLONEFUT):
             ids[b] = res
         elif code == SWAP:
             ids[a], ids[b] = pre, res
         # --- state
-        if code == POLLEND:
+        if code in (POLLEND, POLLENDL):
             f = own.top_frame(t)
             polled[f[1]] = a
-        if code == POLLEND and own.kinds.get(own.top_frame(t)[1]) in ('w', 'i') and defaults.get(t):
+        if code in (POLLEND, POLLENDL) and own.kinds.get(own.top_frame(t)[1]) in ('w', 'i') and defaults.get(t):
             defaults[t].pop()
+        if code == INSTRCUR:
+            polled.pop(a, None)
         if code == INSTRUMENT:
             polled.pop(a, None)
             if op[4] == 1:
@@ -570,7 +625,7 @@ def describe_collectors(case):
     names = ["Dispatch::new(c)", "Dispatch::new(Box::new(c))", "Dispatch::new(Arc::new(c))",
              "Dispatch::new(Box<dyn Collect + Send + Sync>)", "Dispatch::new(Arc<dyn Collect + Send + Sync>)"]
     return ["collector %d: %s%s" % (k + 1, names[ws[k] if k < len(ws) else 0],
-                                    ", clone_span returns a fresh id per handle, current_span unknown" if k + 1 >= 3 else "")
+                                    ", clone_span returns a fresh id per handle" if k + 1 >= 3 else "")
             for k in range(case.get("collectors", 2))] + \
         (["every collector numbers its spans from 1 (the log shows global sequence numbers)"] if own else [])
 
@@ -624,15 +679,16 @@ def model_obs(ctx, cases, tag="cases"):
 
 def run(ctx):
     rep = Report(ctx)
-    rep.rule = ("seeded random programs over 26 op kinds (New via span!/direct x root/contextual/&Span/Option<Id>/None parent x enabled?, "
+    rep.rule = ("seeded random programs over 30 op kinds (New via span!/direct x root/contextual/&Span/Option<Id>/None parent x enabled?, "
                 "Clone, Current, OrCurrent, Drop, Enter/DropGuard in any order, Entered/ExitOwned, in_scope begin/end (return or unwind), "
                 "Record chains incl. missing fields, FollowsFrom &Span/Option<Id>/None, is_none/is_disabled/id/metadata, Instrument "
                 "(tracing / tracing-futures; plain or around a WithDispatch), with_collector / with_current_collector around an "
                 "Instrumented, Poll begin/end (Pending/Ready/panic), IntoInner, inner/inner_mut/inner_pin_ref/inner_pin_mut, "
                 "mem::swap through span_mut, Clone for Instrumented/WithDispatch, drop(x.clone()) written on the holder incl. an EnteredSpan "
-                "guard, clone_from directly / through Box / Option / Vec, SetDefault/CloseScope) on 1-3 (thorough: 1-6) OS threads, "
+                "guard, clone_from directly / through Box / Option / Vec, in_current_span, holders dropped by a contained panic (PDrop) and "
+                "in_scope / poll bodies that own holders as locals and return or unwind (ScopeEndL / PollEndL), SetDefault/CloseScope) on 1-3 (thorough: 1-6) OS threads, "
                 "2-4 recording collectors (installed directly or behind Box<C> / Arc<C> / Box<dyn Collect> / Arc<dyn Collect>; "
-                "collectors 3 and 4 return a fresh alias id from clone_span and do not track the current span; in 35 % of the cases every "
+                "collectors 3 and 4 return a fresh alias id from clone_span and name the current span by the newest unclosed alias; in 35 % of the cases every "
                 "collector numbers its spans from 1, so ids overlap between collectors) + no collector; non-trivial = the program has a clone AND (an out-of-order guard drop OR a "
                 "future dropped between polls OR a collector call made while the thread's default was a different collector / none "
                 "OR a handle consumed on one thread while its span is entered on another); distinct = distinct op lists")
@@ -645,8 +701,8 @@ def run(ctx):
     rep.assumptions = [
         "collector contract: new_span returns an id no collector has issued before; clone_span returns the id it was given "
         "(collectors 1, 2) or a fresh id that aliases the same span (collectors 3, 4: one id per handle); current_span is the "
-        "innermost span entered on the calling thread (exit removes the most recent occurrence) for collectors 1, 2 and "
-        "Current::unknown() (the trait's default) for collectors 3, 4",
+        "innermost span entered on the calling thread (exit removes the most recent occurrence of that span); collectors 3, 4 "
+        "name it by the newest alias they issued for it and have not seen closed",
         "no mem::forget / leaks of handles or guards; the `log` feature is off",
         "default-collector scopes are closed innermost-first (out-of-order DefaultGuard drops are C02's subject)",
         "a thread does not open / close default-collector scopes of its own while it is inside the poll of a WithDispatch-wrapped "
